@@ -10,7 +10,48 @@ from .sem import Evaluator, FreeVariable, MultiWorld, Undefined
 DEFAULT_NAMES = ["A", "B", "C", "D"]
 
 
-def make_eval(names, mseed: int, card3=None):
+def has_worlds(spec) -> bool:
+    """Does the expression spec contain a probability term whose variables live in different worlds?"""
+    if isinstance(spec, dict):
+        if spec.get("t") == "P" and spec.get("vdo"):
+            return True
+        return any(has_worlds(v) for v in spec.values())
+    if isinstance(spec, list):
+        return any(has_worlds(v) for v in spec)
+    return False
+
+
+def make_world_eval(names, mseed: int):
+    """Semantics for expressions with multi-world (counterfactual joint) terms: one functional model with shared
+    exogenous noise per population, on a complete DAG (random order) whose nodes all share latent causes, so that no
+    independence holds by construction.  Single-world terms read the model's interventional tables, multi-world terms
+    its joint counterfactual probabilities; all of them are therefore consistent with one another (marginalising a
+    multi-world term gives the single-world term).  Single-world tables are positive; multi-world events can have
+    structural zeros (consistency), so callers skip assignments at which either side is undefined."""
+    from .common import SplitMix, derive_seed
+    from .model import FSCM, FreeTables
+
+    names = sorted(names)
+    order = SplitMix(derive_seed(mseed, "world-order")).shuffle(names)
+    pairs = [[order[i], order[j]] for i in range(len(order)) for j in range(i + 1, len(order))]
+    g = {"nodes": order, "di": pairs, "bi": pairs}
+    models = {}
+
+    def model(pop):
+        m = models.get(pop)
+        if m is None:
+            m = models[pop] = FSCM(g, derive_seed(mseed, "world", str(pop)), max_card=2, clique_mode=True)
+        return m
+
+    card = {n: 2 for n in names}
+    ft = FreeTables(names, card, mseed)
+    ev = Evaluator(card, lambda pop, do: model(pop).joint(do), q_provider=ft.qfactor, cf_provider=lambda pop, items: model(pop).prob_event(items))
+    return ev, card
+
+
+def make_eval(names, mseed: int, card3=None, worlds=False):
+    if worlds:
+        return make_world_eval(names, mseed)
     card = {n: 2 for n in names}
     if card3 in card:
         card[card3] = 3
@@ -36,8 +77,9 @@ def value_vector(ev, expr, names, card):
     return tuple(out)
 
 
-def first_difference(ev, e1, e2, names, card):
-    """None if e1 and e2 denote the same function, else a detail dict (first differing environment)."""
+def first_difference(ev, e1, e2, names, card, skip_undefined=False):
+    """None if e1 and e2 denote the same function, else a detail dict (first differing environment).
+    ``skip_undefined``: assignments at which either side is undefined are not compared (multi-world semantics)."""
     for env in envs(names, card):
         try:
             v1 = ev.ev(e1, env)
@@ -47,6 +89,30 @@ def first_difference(ev, e1, e2, names, card):
             v2 = ev.ev(e2, env)
         except Undefined:
             v2 = "undef"
+        if skip_undefined and "undef" in (v1, v2):
+            continue
         if v1 != v2:
             return {"assignment": env, "left_value": str(v1), "right_value": str(v2)}
     return None
+
+
+def ambiguous_twin_binding(expr, bound=frozenset()) -> bool:
+    """A summation range binds a name that one probability term under it carries in two different worlds
+    (``Sum[A](P(A, A @ -C))``).  The DSL gives that no settled meaning -- one shared value for both copies, or every
+    copy marginalised separately (the source marks the case with a FIXME) -- so such expressions are outside the domain
+    of the semantic checks."""
+    from y0.dsl import Fraction, Probability, Product, Sum
+
+    if isinstance(expr, Probability):
+        seen = {}
+        for v in tuple(expr.children) + tuple(expr.parents):
+            if v.name in bound:
+                seen.setdefault(v.name, set()).add(v)
+        return any(len(vs) > 1 for vs in seen.values())
+    if isinstance(expr, Product):
+        return any(ambiguous_twin_binding(x, bound) for x in expr.expressions)
+    if isinstance(expr, Sum):
+        return ambiguous_twin_binding(expr.expression, bound | {r.name for r in expr.ranges})
+    if isinstance(expr, Fraction):
+        return ambiguous_twin_binding(expr.numerator, bound) or ambiguous_twin_binding(expr.denominator, bound)
+    return False
